@@ -125,6 +125,8 @@ def run_e2e(ctx, n):
         files['union.json'] = json.dumps(merged_order)
         for i in range(1, nparts + 1):
             files['p%d.json' % i] = json.dumps(parts[i])
+            files['q%d/params.json' % i] = json.dumps(parts[i])      # the same base name in different directories
+        files['nothing/README'] = 'no parameter file here\n'          # an -i argument that contributes no file
         e2e.write_files(d, files)
         sc = {'k': k, 'dir': d, 'doc': doc, 'parts': parts, 'overlap': overlap, 'dup_key': dup_key, 'rules': files['r.guard'], 'nparts': nparts}
         scen.append(sc)
@@ -139,6 +141,21 @@ def run_e2e(ctx, n):
                     args += ['-i', 'p%d.json' % i]
                 jobs.append({'args': args, 'cwd': d})
                 meta.append((k, mode, od))
+                # layouts: same base name under different directories; an argument without any file at every position
+                args = ['validate', '-r', 'r.guard', '-d', 'data.json'] + flags
+                for i in od:
+                    args += ['-i', 'q%d/params.json' % i]
+                jobs.append({'args': args, 'cwd': d})
+                meta.append((k, mode, ('same-base-name',) + od))
+                if od == orders[0] or len(scen) % 3 == 0:
+                    for pos in range(len(od) + 1):
+                        names = ['p%d.json' % i for i in od]
+                        names.insert(pos, 'nothing')
+                        args = ['validate', '-r', 'r.guard', '-d', 'data.json'] + flags
+                        for nm in names:
+                            args += ['-i', nm]
+                        jobs.append({'args': args, 'cwd': d})
+                        meta.append((k, mode, ('empty-argument-at-%d' % pos,) + od))
         k += 1
     res = e2e.run_many(jobs)
     by = {}
